@@ -2,6 +2,7 @@ package engine
 
 import (
 	"fmt"
+	"strings"
 
 	"apdsim/plan"
 
@@ -79,6 +80,21 @@ func genTrapOperand(r *plan.Rng) plan.Dec {
 		return plan.Dec{Coeff: randDigits(r, 1+r.Intn(4)), Exp: int32(-r.Intn(4)), Neg: r.Chance(1, 4)}
 	case 3:
 		return plan.Dec{Coeff: randDigits(r, 1+r.Intn(8)), Exp: int32(r.Range(-12, 4)), Neg: r.Chance(1, 4)}
+	case 4:
+		// small integers (exponents of Pow, divisors)
+		return plan.Dec{Coeff: fmt.Sprint(r.Intn(6)), Neg: r.Chance(1, 5)}
+	case 5:
+		// 1 ± 10^-k and 10^k ± 1: squares and products that are inexact at the
+		// working precision while the final rounding only drops zeros
+		k := 2 + r.Intn(18)
+		switch r.Intn(3) {
+		case 0:
+			return plan.Dec{Coeff: "1" + strings.Repeat("0", k-1) + "1", Exp: int32(-k)}
+		case 1:
+			return plan.Dec{Coeff: "1" + strings.Repeat("0", k-1) + "1", Exp: 0}
+		default:
+			return plan.Dec{Coeff: strings.Repeat("9", k), Exp: int32(-k)}
+		}
 	}
 	return GenDec(r, false)
 }
